@@ -463,6 +463,7 @@ func runC02(p *core.Prog, r *core.Report) {
 
 	// ------------------------------------------------------------------ R7
 	r.Guard("C02.R7", "selectors", "combiner classification", func() { checkSelectors(p, r) })
+	r.Guard("C02.R7", "merge-domain", "numeric domain per value-type clause", func() { checkMergeBranchDomain(p, r, "C02.R7") })
 	r.Guard("C02.R8", "Merge/key-set", "every key of the partial is merged", func() { checkMergeKeySet(p, r) })
 
 	r.Guard("C02.R4", "min-max-absent", "absent keys under MIN/MAX", func() { checkMinMaxAbsentKey(p, r) })
